@@ -22,7 +22,7 @@ open Tickit Tickit.Driver Tickit.Life
 
 def cfg : Cfg :=
   ⟨Gen.Life.closePurges, Gen.Life.destroyClosesChildren, Gen.Life.spanExactFit, Gen.Life.mouseKeepsRoot, Gen.Life.lastPressInit,
-   Gen.Life.dragForgottenOnClose, Gen.Life.snapshotRouting⟩
+   Gen.Life.dragForgottenOnClose, Gen.Life.snapshotRouting, Gen.Life.penCopyKeepsSrc⟩
 
 structure DSt where
   st : St := {}
